@@ -21,7 +21,7 @@ CONSTANTS
  InvAfterDel = TRUE
  NormKey = TRUE
  TrustApplied = FALSE
- PlainIds = {"n1"}
+ PlainIds = {}
  FeatFromPut = FALSE
  LockStyle = "global"
 INIT MInit
